@@ -51,6 +51,14 @@ CLAIMS = {
    text="Lean theorems (kernel evaluation): all ten DES lookup tables extracted from the tree equal the tables derived in Lean from the FIPS 46-3 permutations and S-boxes by the documented construction; key shifts as published. The table-driven model is compared with the code and with a bit-level FIPS 46-3 implementation (weight-1/63 keys and blocks, every salt bit, counts); setkey/encrypt/_r run through the freshly linked libcrypt.so.1 in random histories interleaved with crypt calls.",
    note=TB + "dec(enc(b)) = b and parity-independence are decided by the oracle, not yet by theorems (bit-vector reasoning without bv_decide).",
    technique="Lean 4 proof by kernel evaluation over generated tables + bit-level DES oracle", ref="DESIGN.md §6 C17"),
+ "C19": dict(
+   text="Lean model of gen-crypt-hashes-h (mkTable/mkDefault) reproduces the tree's generated table (mkTable_ok); theorem C19_all_configs: for every one of the 65 536 subsets (kernel evaluation, 64 parallel chunks, plus a proof that every subset is numbered) the table is prefix-free with empty prefixes last, contains exactly the enabled methods under their own prefixes and entry points, and the default prefix is the first enabled default-capable method, strong and dispatched to itself. Correspondence: real builds (perl generators + gcc + shared link with --no-undefined) of 6 (quick) / ~80 (thorough) configurations driven with a corpus and compared with the model under that configuration and with the full build.",
+   note=TB + "That every subset compiles is established only for the built ones; perl's sort is assumed stable (ties between the two empty prefixes).",
+   technique="Lean 4 proof by exhaustive kernel evaluation over all 2^16 configurations + real per-configuration builds", ref="DESIGN.md §6 C19"),
+ "C20": dict(
+   text="Lean theorems decided over tables regenerated from the tree (crypt.h probe, readelf of the freshly linked .so): struct layout 32768/0,384,768,1280,2047,2048 with no padding, all public constants equal to the released header's, every released (symbol, version, default) triple still exported, released alias classes preserved, compat names alias their modern counterparts. A client compiled against the released <crypt.h> runs against the fresh and the released libcrypt.so.1; results are compared with each other and with the model.",
+   note=TB + "Released facts (libxcrypt 4.4.33, Debian) are committed under /verif/ref; calling conventions and libc ABI are the toolchain's.",
+   technique="Lean 4 proof (decide over generated ABI tables) + old-header client differential run", ref="DESIGN.md §6 C20"),
 }
 NOT_YET = "check under construction in this round; not claimed yet"
 
